@@ -55,3 +55,6 @@ func Apply(f func(int) int, k int) int { return f(k) }
 func hidden(k int) int { return Y(k) + 3 }
 
 var _ = hidden
+
+// P is a silent perturbation point (kpngen): it may suspend the goroutine in the R build and prints nothing.
+func P(k int) { maybe(k) }
